@@ -9,7 +9,7 @@
    writer that answers a failed rename by copying over the target: see the `_refuted` theorems. *)
 From Coq Require Import List String NArith Bool.
 Import ListNotations.
-From IT Require Import Fs.Crash Fs.CrashThm.
+From IT Require Import Fs.Crash Fs.CrashThm Fs.TwoWriters.
 
 (* all-or-nothing for every writer program that passes the decidable premise, against every fault sequence *)
 Theorem C17_atomic : forall w, wf_writer w = true ->
@@ -83,6 +83,49 @@ Proof. exact (conj direct_witness_open direct_witness_5). Qed.
 Theorem C17_fallback_copy_refuted : forall ok err, ~ atomic_writer (rename_or (WOp (SCopy Tmp Target) ok err)).
 Proof. exact fallback_copy_refuted. Qed.
 
+(* two concurrent writers (a terminal build and an IDE check), each with its own temp file, under every
+   interleaving and every kill point: the target holds the old content or one of the two new contents.
+   run2: the error path of a process removes its own temp file; run2_stop: the error path does nothing *)
+Theorem C17_two_writers_private : forall p tA tB old newA newB d sched,
+  tA <> p -> tB <> p -> tA <> tB -> d p = Some old ->
+  let d' := run2 p tA newA tB newB sched d in
+  d' p = Some old \/ d' p = Some newA \/ d' p = Some newB.
+Proof. exact two_writers_private. Qed.
+
+Theorem C17_two_writers_private_stop : forall p tA tB old newA newB d sched,
+  tA <> p -> tB <> p -> tA <> tB -> d p = Some old ->
+  let d' := run2_stop p tA newA tB newB sched d in
+  d' p = Some old \/ d' p = Some newA \/ d' p = Some newB.
+Proof. exact two_writers_private_stop. Qed.
+
+(* the temp files of two processes with different pids differ *)
+Theorem C17_tmp_pid_differs : forall p a b, a <> b -> tmp_of p (real_suffix a) <> tmp_of p (real_suffix b).
+Proof. exact real_tmp_pid_differs. Qed.
+
+Theorem C17_two_writers_real_tmp : forall p pidA pidB old newA newB d sched,
+  pidA <> pidB -> d p = Some old ->
+  let d' := run2 p (tmp_of p (real_suffix pidA)) newA (tmp_of p (real_suffix pidB)) newB sched d in
+  d' p = Some old \/ d' p = Some newA \/ d' p = Some newB.
+Proof. exact two_writers_real_tmp. Qed.
+
+(* refuted: a SHARED temp file.  A creates, writes, fsyncs; B truncates the same file and is killed; A renames:
+   the target is empty although old and both new contents are not *)
+Theorem C17_two_writers_shared_refuted :
+  let p := "src/lib.rs"%string in
+  let t := "src/lib.rs.inter_tmp"%string in
+  let d := disk0 p w_old in
+  t <> p /\ d p = Some w_old /\ w_old <> [] /\ w_new <> [] /\ w_newB <> []
+  /\ run2 p t w_new t w_newB shared_sched d p = Some []
+  /\ run2_stop p t w_new t w_newB shared_sched d p = Some [].
+Proof. exact two_writers_shared_refuted. Qed.
+
+Theorem C17_two_writers_shared_not_atomic :
+  ~ (forall p tA tB old newA newB d sched,
+       tA <> p -> tB <> p -> d p = Some old ->
+       let d' := run2 p tA newA tB newB sched d in
+       d' p = Some old \/ d' p = Some newA \/ d' p = Some newB).
+Proof. exact two_writers_shared_not_atomic. Qed.
+
 Print Assumptions C17_atomic.
 Print Assumptions C17_atomic_any_environment.
 Print Assumptions C17_tmp_rename_atomic.
@@ -96,3 +139,9 @@ Print Assumptions C17_truncating_open_refuted.
 Print Assumptions C17_direct_refuted.
 Print Assumptions C17_direct_witnesses.
 Print Assumptions C17_fallback_copy_refuted.
+Print Assumptions C17_two_writers_private.
+Print Assumptions C17_two_writers_private_stop.
+Print Assumptions C17_tmp_pid_differs.
+Print Assumptions C17_two_writers_real_tmp.
+Print Assumptions C17_two_writers_shared_refuted.
+Print Assumptions C17_two_writers_shared_not_atomic.
